@@ -314,10 +314,12 @@ func (subChMap *subChannelMap) IntrospectState(opts *IntrospectionOptions) map[s
 		}
 		if hmap, ok := sc.handler.(*handlerMap); ok {
 			state.Handler.Type = methodHandler
+			hmap.RLock()
 			methods := make([]string, 0, len(hmap.handlers))
 			for k := range hmap.handlers {
 				methods = append(methods, k)
 			}
+			hmap.RUnlock()
 			sort.Strings(methods)
 			state.Handler.Methods = methods
 		} else {
